@@ -12,7 +12,7 @@ CLAIMED = {
             "xarray's indexer decomposition is third-party (tested end-to-end; two xarray-internal failures are recorded as known findings)", "7 C02"),
     "C06": ("Lean theorems product_rpc_independent (whole-product model: root attributes, summary, /metadata and the set and order of image groups do not depend on the chunk size) / image_rpc_independent (layout-based reader: two successful opens of a well-framed image with any two chunk sizes return the same header, line records, image group and array metadata up to the chunk size) / record_window (translation invariance of the layout interpreter on the line-record layouts) / metadata_rpc_independent / data_rpc_independent / preferred_chunksize; pairwise bit-exact tree comparison oracle",
             "float division in math.ceil exact below 2**53", "7 C06"),
-    "C11": ("Lean theorems on the I/O trace component of the model (one seek+read per touched chunk, confined to the chunk and the file; open pass = prefix of ceil(n/rpc) sequential reads); event-sequence correspondence against a tracing file object; instrumented-filesystem oracle",
+    "C11": ("Lean theorems reader_read_bounds (the request for each group of the array the reader builds from an image file spans exactly that group's lines, inside the file) and theorems on the I/O trace component of the model (one seek+read per touched chunk, confined to the chunk and the file; open pass = prefix of ceil(n/rpc) sequential reads); event-sequence correspondence against a tracing file object; instrumented-filesystem oracle",
             "xarray may widen selections before the backend is called; bound checked against the selection's line span", "7 C11"),
     "C05": ("Lean theorems attitude / data_quality / facility_1_4 / volume_directory / trailer / leader / static_records on the record layouts regenerated from /repo (incl. their this-expressions): a successful parse consumes exactly the declared bytes for every count and length; layout correspondence; all-N oracle with field-by-field comparison after each variable record",
             "the interpreter's meaning of construct classes is tied by differential testing; trailer_images / trailer_samples: the trailer reader decodes image i from the bytes between the running sums of the declared lengths (model tied by the trailer correspondence); numpy's frombuffer/reshape are contracts", "7 C05"),
